@@ -50,6 +50,7 @@ type Shard struct {
 	violCount   map[string]int64
 	samples     []interface{}
 	counters    map[string]int64
+	compactAt   int
 }
 
 // Run is one invocation of one check.
@@ -125,8 +126,15 @@ func (s *Shard) Nontrivial(key string) {
 	h := fnv.New64a()
 	h.Write([]byte(key))
 	s.nontriv = append(s.nontriv, h.Sum64())
-	if len(s.nontriv) >= 1<<20 {
+	if s.compactAt == 0 {
+		s.compactAt = 1 << 20
+	}
+	if len(s.nontriv) >= s.compactAt {
 		s.compact()
+		// when (nearly) all keys are distinct the slice stays long: compact again only after it has doubled
+		if s.compactAt < 2*len(s.nontriv) {
+			s.compactAt = 2 * len(s.nontriv)
+		}
 	}
 }
 
